@@ -183,6 +183,37 @@ func c17(e *Env) {
 		switch kind {
 		case 0:
 			msg = world.QueryMsg(hs(), primitive.ConsistencyLevelOne)
+			if c.Choose("odddml", 2) == 1 {
+				// Malformed data statements that the backend answers with an error *after* the proxy
+				// forwarded them: the proxy then parses the text to decide whether it may retry.
+				k := "'" + tok + "'"
+				frags := []string{";", "(", ")", ",", "=", "?", ":", "[", "]", "{", "}", "+", "-", ".", "*", "''", "'", "\"", "$$", "/*", "--", "0x", "1e", "IF", "USING", "AND", "SET", "WHERE", "VALUES", "\x00", "\u00e9"}
+				fr := func() string { return frags[c.Choose("frag", len(frags))] }
+				shapes := []string{
+					"INSERT INTO ks.t (k, v) VALUES (" + k + ", " + fr() + "",
+					"INSERT INTO ks.t (k, v) VALUES (" + k + ", " + fr() + ")",
+					"INSERT INTO ks.t (k" + fr() + " v) VALUES (" + k + ", 1)",
+					"UPDATE ks.t SET v = " + fr() + " WHERE k = " + k,
+					"UPDATE ks.t SET v = v" + fr(),
+					"UPDATE ks.t SET v " + fr() + " 1 WHERE k = " + k,
+					"UPDATE ks.t USING TTL " + fr() + " SET v = 1 WHERE k = " + k,
+					"DELETE FROM ks.t WHERE k = " + fr(),
+					"DELETE v" + fr() + " FROM ks.t WHERE k = " + k,
+					"DELETE FROM ks.t WHERE k = " + k + " IF " + fr(),
+					"BEGIN BATCH UPDATE ks.t SET v = " + fr() + " WHERE k = " + k + "; APPLY BATCH",
+					"BEGIN BATCH " + fr() + " APPLY BATCH -- " + tok,
+				}
+				msg = world.QueryMsg(shapes[c.Choose("oddshape", len(shapes))], primitive.ConsistencyLevelOne)
+				var outs []world.Outcome
+				for j := 0; j < len(w.Nodes)+1; j++ {
+					o := world.DrawOutcome(c, h.Version).Outcome
+					if o.Kind != world.OutError {
+						o = world.ErrOutcome("overloaded", &message.Overloaded{ErrorMessage: "overloaded"})
+					}
+					outs = append(outs, o)
+				}
+				w.Script[tok] = outs
+			}
 		case 1:
 			p := &message.Prepare{Query: hs()}
 			if h.Version.SupportsQueryFlag(primitive.QueryFlagWithKeyspace) {
